@@ -153,7 +153,7 @@ func runC20(c c20Case) Result {
 		switch st.Kind {
 		case "one":
 			r := st.Reqs[0]
-			res := ts.do(r.Method, r.bytes())
+			res := ts.doReq(r)
 			record(r, res)
 			saw200 = saw200 || res.Status == 200
 			sawErr = sawErr || res.Status >= 400
@@ -188,7 +188,7 @@ func runC20(c c20Case) Result {
 				wg.Add(1)
 				go func(i int) {
 					defer wg.Done()
-					results[i] = ts.do(st.Reqs[i].Method, st.Reqs[i].bytes())
+					results[i] = ts.doReq(st.Reqs[i])
 				}(i)
 			}
 			wg.Wait()
